@@ -210,7 +210,30 @@ func TestC08(t *testing.T) {
 			}
 			c.snapshot(nil, nil)
 		}
-		f.logf("c08 snapshots=%d", ns)
+		// sometimes a burst: hundreds of short-lived snapshots with garbage are created and released behind the
+		// held ones, so that releasing the oldest later hands hundreds of lists to the collector in one pass
+		storm := 0
+		if rapid.IntRange(0, 7).Draw(t, "storm") == 0 {
+			storm = rapid.IntRange(260, 330).Draw(t, "stormlen")
+			for j := 0; j < storm; j++ {
+				k := []byte{'s', byte('0' + j%7)}
+				if !w.Delete(k) {
+					w.Put(k)
+				}
+				s, _ := c.db.NewSnapshot()
+				s.Close()
+			}
+			// the keys toggled by the storm
+			for j := 0; j < 7; j++ {
+				k := string([]byte{'s', byte('0' + j)})
+				if w.GetNode([]byte(k)) != nil {
+					c.state[k] = k
+				} else {
+					delete(c.state, k)
+				}
+			}
+		}
+		f.logf("c08 snapshots=%d storm=%d", ns, storm)
 		events, initial, raced := runRefRound(t, c, f)
 		// counter linearizability per snapshot
 		for j := range c.snaps {
